@@ -59,6 +59,16 @@ def generate(tier, seed):
             for o in ops:
                 cases.append(case("eng", sp, adapter_M(uniq), "-", block + [o] + block))
                 dist["configs"] += 1
+            # a link that is in the role graph but no longer in the store (its rule was removed while automatic link building
+            # was off): a BATCH addition of other links afterwards must not take it away (granting never revokes)
+            glines = [l for l in uniq if l[0] == "g" and l[1] == "g"]
+            if glines and not eft and len(cases) % 4 == 0:
+                gl = glines[0]
+                pool = subs
+                batch = [[rnd.choice(pool), rnd.choice(pool)] + (["d1"] if d["g"]["g"] == 3 else []) for _ in range(2)]
+                pre = ["EB:0", R("g", "g", gl[2:]), "EB:1"]
+                cases.append(case("eng", sp, adapter_M(uniq), "-", pre + block + [AM("g", "g", batch)] + block))
+                dist["stale_link_then_batch"] = dist.get("stale_link_then_batch", 0) + 1
     return {
         "cases": cases,
         "exhaustive": False,
